@@ -107,15 +107,15 @@ ADDED = {
  "C05": "Also: neither the bytes a bundled decoder assigns nor the reader the link system hands to a decoder come from recycled storage (decoderbytes). Each chooser of the registry-based link system returns an error only for the registry's own refusal or a foreign prototype type (chooserrefuses). A commit into cidlink.Memory reports success only after the block was placed (storecommits).",
  "C06": "Also: Fill drains the rest of the stream into the hasher on every path after the decoder ran (wholestream); Store writes through the storage writer directly or through an error latch of the package whose error gates the commit (nocommit). The encoder's fan-out holds the storage side and the hasher only.",
  "C07": "Also: stated interests are explored in the stated order (engine); the stop-at condition compares links as wholes (stopat); a union lists a shared segment once and asks each member once (unioninterests). No Match method of a selector consults Decide (matchdelegates).",
- "C08": "Also: a kinded union's re-pointed member is used at type level only after its own strategy was consulted (kindedrepr). The places of bindnode that answer Null / Absent for a nil Go value decide it under the same tests (nullsame, sibling agreement). A begun list or map exists: its Go value is made or found non-nil before the assembler is handed out (begunexists).",
+ "C08": "Also: a kinded union's re-pointed member is used at type level only after its own strategy was consulted (kindedrepr). The places of bindnode that answer Null / Absent for a nil Go value decide it under the same tests (nullsame, sibling agreement). A begun list or map exists: its Go value is made or found non-nil before the assembler is handed out (begunexists). The member of a union is set before the enclosing finish hook can run (memberthenfinish, shared with C19).",
  "C09": "Also: a stringjoin struct is split without a limit (splitexact); reflect accessors are applied to the materialised slot, never to the raw (possibly pointer) value (materialised); the reverse key mapping has no identity fallback for type-level names (reversekey); AssignNode never writes the slot itself (assignnodechecked); a list assembler of fixed arity (the listpairs pair) refuses to finish below it (arity); every AssignString that can write a string into the bound Go value consults the enum members (enummember). A membership bit 1 << i is computed only where i was bounded below the word width (shiftwidth). Where a repeated key is rejected on a look-up in the index, every successful return of that function lies beyond the look-up (repeat, must-pass-through).",
  "C10": "Also: both decoders bound nesting by the same comparison (depth, sibling agreement); slice bounds are normalised against the length of the value that is sliced (slicedomain). An element of untrusted bytes is read at a constant index only where len() of them was compared beyond it (index); a number parsed from a path segment or read from a node indexes a slice only where bounded from below and above (untrustedindex).",
  "C11": "Also: no builder, assembler or iterator makes a node out of its own fields (nodeoutside); a ReadSeeker held in a field is positioned before every read and never handed out as it is (sharedseeker); the decoder's input is not recycled storage (decoderbytes); no assembler method writes the node when the assembler is finished (afterfinish).",
- "C12": "Also: the finish-hook rule covers every function that writes an assembler's slot; a rejected key leaves the assembler in its initial state (usableafterreject); AssignNode takes the checked route (assignnodechecked). Nothing is written before a repeated key is reported (rejectclean).",
+ "C12": "Also: the finish-hook rule covers every function that writes an assembler's slot; a rejected key leaves the assembler in its initial state (usableafterreject); AssignNode takes the checked route (assignnodechecked). Nothing is written before a repeated key is reported (rejectclean). The member of a union is set before the enclosing finish hook can run (memberthenfinish, shared with C19).",
  "C14": "Also: the LinkPath handed to the link system by get is the path recorded as LastBlock.Path (get); a map key becomes a reported path segment only through its representation when typed and only after AsString succeeded (keysegment).",
  "C15": "Also: the seen-set is never re-created inside a recursive walk (seeninit); start-path comparisons only while not past the start path (startgate); every spending site of package traversal tests the counter before charging (threshold). Within one activation a second visit is never reachable without a new spend, and the functions of the recursion that spend nothing do not invoke the visit callback (once, extended).",
  "C16": "Also: a transform that stores blocks back loads them with Fill, not through the reifying Load (rawload); the callback runs once per target (onecall), sees the node at the target and not a Match result (callbacknode); the focused transform reports success only after the callback ran or a descent was made (handled); create mode is entered only with the create-parents flag true or at the last step, on every container kind (createparents); a parsed list position reaches the merge with the internal append marker only over a test that excludes the marker (sentinel). The child-iterating steps of the transforming walk select children through the same helpers (siblingselect).",
- "C17": "Also: the escaping functions the package installs treat every key alike (escapeuniform); each stream gets its own writer (streamfresh). A put reports success only after the placement (putstores); no append onto a caller's slice (noappendcaller); the error tested with os.IsExist is the rename's (existsofrename).",
+ "C17": "Also: the escaping functions the package installs treat every key alike (escapeuniform); each stream gets its own writer (streamfresh). A put reports success only after the placement (putstores); no append onto a caller's slice (noappendcaller); the error tested with os.IsExist is the rename's (existsofrename). The link system calls the storage committer with the binary key of the link only (commitkey).",
  "C18": "Also: every streaming helper of the storage packages commits only over the nil edge of every Write (streamcommit).",
  "C19": "Also: schema inference memoises per call by Go type before accumulating (infermemo); reflect.Uint and reflect.Uint64 both get the unsigned node (uintkinds). A union's member is set before anything that can run the enclosing finish hook (memberthenfinish). A local copy of a package-level struct with map / slice / pointer fields is not handed to a function that writes through it (pure, shallow copies).",
  "C20": "Also: a value placed in a package-level sync.Map / atomic.Value is not written into afterwards (publish); a closure installed in a field of a longer-lived object keeps no scratch state in a captured local of its creator (closurestate). A slice a shared object hands out of its own storage (Interests, Fields, Members ...) is never sorted, copied into, stored through or handed to a function that writes through that parameter (sharedslice).",
